@@ -31,7 +31,7 @@ def ancestralB (M : MG) : Bool :=
 
 def maximalB (M : MG) : Bool :=
   (C08.combos M.nodes).all fun (x, y) =>
-    adjB M x y || (sublists (M.nodes.filter fun v => v != x && v != y)).any fun Z => MG.mSeparated M [x] [y] Z
+    x == y || adjB M x y || (sublists (M.nodes.filter fun v => v != x && v != y)).any fun Z => MG.mSeparated M [x] [y] Z
 
 /-- valid MAG without undirected edges: simple, ancestral, maximal -/
 def isMagB (M : MG) : Bool := M.un.isEmpty && M.circ.isEmpty && ancestralB M && maximalB M
@@ -66,9 +66,13 @@ def pagOf (M : MG) : MG :=
 
 def sameNodes (A B : List Nat) : Bool := A.all (· ∈ B) && B.all (· ∈ A)
 
-/-- executable `Structural` (over the node list of `P` and of `M`) -/
+/-- every endpoint of an edge of `G` (any layer) -/
+def ends (G : MG) : List Nat := (G.dir ++ G.bi ++ G.un ++ G.circ).flatMap fun e => [e.1, e.2]
+
+/-- executable `StructuralS` (over the node lists of `P` and `M` and every endpoint of an edge of
+    either graph, so that an edge to a non-node cannot escape the comparison) -/
 def structuralFails (P M : MG) : List String :=
-  let ns := (P.nodes ++ M.nodes).eraseDups
+  let ns := (P.nodes ++ M.nodes ++ ends P ++ ends M).eraseDups
   let prs := ns.flatMap fun a => ns.map fun b => (a, b)
   (if sameNodes P.nodes M.nodes then [] else ["nodes"]) ++
   (if prs.all (fun (a, b) => adjB M a b == adjB P a b) then [] else ["adjacency"]) ++
